@@ -302,7 +302,9 @@ def scen_budget(g, name, typ):
         L.append("build")
     else:  # adapters
         n = r.choice([62, 65, 66, 70, 100, 130])
-        L += ["new %s n=%d" % (typ, n)]
+        # an upstream whose size_hint lower bound says nothing (slack >= what is left): the limit
+        # must still be n, not what the hint suggested at construction
+        L += ["new %s n=%d%s" % (typ, n, r.choice(["", "", " hlo=1000"]))]
         for j in range(1, n + r.choice([5, 40]) + 1):
             k, fin = kfin(j, [":R"])
             L.append("up item " + (clone if r.random() < 0.5 else quiet)(k, fin or ":R")); nid += 1
@@ -540,7 +542,35 @@ def scen_cycles(g, name, typ):
     return _tail(L)
 
 
-SCENARIOS = {"budget": scen_budget, "groups": scen_groups, "reuse": scen_reuse, "deque": scen_deque, "zst": scen_zst,
+def scen_huge(g, name, typ):
+    """an unbounded collection holding thousands of children at once (now and then: most instances
+    hold a few hundred): every new group must be twice the last one however large that is - the
+    capacity reported after each batch and the allocation counts say so"""
+    r = g.r
+    if typ not in ("FU", "MU", "FO"):
+        typ = r.choice(["FU", "MU", "FO"])
+    total = r.choice([2100, 3100, 4200]) if r.random() < 0.06 else r.choice([130, 260, 520])
+    L = ["hist " + name, "new %s %s" % (typ, r.choice(["new=1", "cap=1", "cap=32"])), "build"]
+    nid = 1
+    fin = ":E" if typ == "MU" else ":R"
+    # (the name keeps the type it was asked for; the history says which one it is)
+    done = 0
+    while done < total:
+        batch = min(total - done, r.choice([64, 200, 500, 1100]))
+        for _ in range(batch):
+            L.append("push %d %s" % (nid, r.choice([":P", ":P;" + fin, "c:P"]))); nid += 1
+        done += batch
+        L.append("obs")
+        if r.random() < 0.5:
+            L.append("poll %d" % r.choice([1, 2]))
+    for _ in range(r.choice([1, 2, 3])):
+        L.append("poll %d" % r.choice([1, 2]))
+    L.append("obs")
+    g.stats["types"][typ] = g.stats["types"].get(typ, 0) + 1
+    return _tail(L)
+
+
+SCENARIOS = {"huge": scen_huge, "budget": scen_budget, "groups": scen_groups, "reuse": scen_reuse, "deque": scen_deque, "zst": scen_zst,
              "cycles": scen_cycles}
 
 
